@@ -192,7 +192,19 @@ func (e *Engine) InvMethod(pkgPath string, fn *types.Func, sp *spec.File) (rep *
 		}
 	}
 	fr.onRet = func(st *State, rets []Val) { record(st) }
-	e.stmts(fr, st, decl.Body.List, func(st *State) { record(st) })
+	if fs := e.specOf(fn); fs != nil {
+		// the method is under contract in a used module (where the contract is verified): the invariants are checked
+		// against that contract - its preconditions are input assumptions here, its postconditions describe the exit
+		v.modular = true
+		for _, c := range fs.Clauses {
+			if c.Kind == "requires" {
+				v.reqs = append(v.reqs, v.pre.Tr(c.E).T)
+			}
+		}
+		e.applyContract(fr, st, fn, decl, fs, args, func(st *State, rets []Val) { record(st) })
+	} else {
+		e.stmts(fr, st, decl.Body.List, func(st *State) { record(st) })
+	}
 	if nexits == 0 {
 		for _, inv := range sp.Invs {
 			v.add(fmt.Sprintf("%s#inv.%s", base, inv.Name), inv.Tags, inv.Name, v.query(st, nil, sx.Bool(true)))
